@@ -12,9 +12,10 @@ TARGETS = {
 
 CHECKS = {
     "C17": dict(
+        promote=True,   # thorough bounds cost seconds: used for the quick tier as well
         level="exploration",
         runs=[dict(name="codec", target="h_codec", args=[], quick=[], thorough=[])],
-        deadline=dict(quick=100, thorough=900),
+        deadline=dict(quick=150, thorough=900),
         rule=("every input of the stated alphabets/lengths is run once (complete enumeration, no sampling); a case is non-trivial when the "
               "decoder/resolver/finder accepted it and a value comparison took place: encode->decode round trips, accepted candidate "
               "encodings, resolved address literals (incl. print/serialize/dup round trips), JSON searches that found a member. "
